@@ -773,6 +773,8 @@ func TestC09(t *testing.T) {
 				fmt.Fprintln(w, runStalled(f[2], f[4]))
 			} else if f[3] == "qfull" {
 				fmt.Fprintln(w, runQueueFull(t, f[1], f[4]))
+			} else if f[2] == "discover" && f[3] == "liveunserved" {
+				fmt.Fprintln(w, runDiscoverUnserved(f[4]))
 			} else if f[2] == "discover" {
 				fmt.Fprintln(w, runDiscover(f[4]))
 			} else if f[2] == "srvstop" && f[3] == "deadpeer" {
